@@ -379,6 +379,7 @@ def apply_reference(repo):
     repo.suppress_forms = suppress_to_try(repo, ref)
     repo.records = expand_records(repo, ref)
     repo.struct_objects = expand_struct_objects(repo, ref)
+    repo.merged_packs = merge_adjacent_packs(repo, ref)
     repo.star_forms = expand_star_forms(repo, ref)
     repo.unrolled_tables = unroll_constant_tables(repo, ref)
     repo.sentinel_getattrs = sentinel_getattr_guards(repo, ref)
@@ -1394,6 +1395,37 @@ def expand_records(repo, ref):
                     blk[idx:idx + 1] = new
                     _invalidate(owner)
                     done.setdefault(q, []).append(x)
+    return done
+
+
+def merge_adjacent_packs(repo, ref):
+    """struct.pack(">A", a) + struct.pack(">B", b)  is  struct.pack(">AB", a, b): with an explicit byte order there is no alignment,
+    the arguments are evaluated in the same order and the same values are converted by the same codes"""
+    done = {}
+
+    def literal_pack(e):
+        if isinstance(e, ast.Call) and ast.unparse(e.func) == "struct.pack" and e.args and not e.keywords and isinstance(e.args[0], ast.Constant) \
+                and isinstance(e.args[0].value, str) and e.args[0].value[:1] in (">", "<", "!", "=") and not any(isinstance(a_, ast.Starred) for a_ in e.args):
+            return e.args[0].value
+        return None
+    for q, fi in repo.funcs.items():
+        if fi.is_lambda or q not in ref:
+            continue
+        progress = True
+        while progress:
+            progress = False
+            for n in walk_own(fi.node):
+                if isinstance(n, ast.BinOp) and isinstance(n.op, ast.Add):
+                    f1, f2 = literal_pack(n.left), literal_pack(n.right)
+                    if f1 and f2 and f1[0] == f2[0]:
+                        new = ast.parse("struct.pack(%r)" % (f1 + f2[1:]), mode="eval").body
+                        new.args += n.left.args[1:] + n.right.args[1:]
+                        _install(n, new)
+                        done[q] = done.get(q, 0) + 1
+                        progress = True
+                        break
+    if done:
+        _clear_analysis_caches()
     return done
 
 
@@ -3318,6 +3350,23 @@ def _extend_displays(fnode):
     """L.extend((a, b)) for a local list L and a display of values is L.append(a); L.append(b)"""
     n = 0
     params = {a_.arg for a_ in fnode.args.args}
+    # L += (a, b) for a local that is only ever bound to a list display is the same in-place extension
+    for owner, field, blk in _blocks(fnode):
+        for j, st in enumerate(blk):
+            if isinstance(st, ast.AugAssign) and isinstance(st.op, ast.Add) and isinstance(st.target, ast.Name) and st.target.id not in params \
+                    and isinstance(st.value, (ast.Tuple, ast.List)) and 1 <= len(st.value.elts) <= 6 and not any(isinstance(e, ast.Starred) for e in st.value.elts):
+                binds = [x for x in ast.walk(fnode) if isinstance(x, ast.Name) and x.id == st.target.id and isinstance(x.ctx, ast.Store) and x is not st.target]
+                if binds and all(isinstance(getattr(b_, "_parent", None), ast.Assign) and b_._parent.targets == [b_] and isinstance(b_._parent.value, ast.List) for b_ in binds) \
+                        and not any(isinstance(a_, ast.AugAssign) and a_ is not st and isinstance(a_.target, ast.Name) and a_.target.id == st.target.id
+                                    and not isinstance(a_.value, (ast.Tuple, ast.List)) for a_ in ast.walk(fnode)):
+                    new = ast.parse("%s.extend(%s)" % (st.target.id, ast.unparse(st.value))).body[0]
+                    for y in ast.walk(new):
+                        ast.copy_location(y, st)
+                        for c_ in ast.iter_child_nodes(y):
+                            c_._parent = y
+                    new._parent = owner
+                    blk[j] = new
+                    _invalidate(owner)
     for owner, field, blk in _blocks(fnode):
         i = 0
         while i < len(blk):
